@@ -6,8 +6,9 @@ gen_stream(rng, tier, **overrides) -> (text, meta)
 
 Words are built from the CEA-608 bit layout (no ttconv imports).  What is generated, and what is deliberately not:
   * one caption mode per segment, 1-3 segments per stream; the screen is erased (EDM) between segments;
-  * pop-on: [RCL] [ENM] (PAC [TOx] text){1..4 rows} [EDM] EOC, optional stand-alone EDM later; ENM is only omitted
-    when the non-displayed memory is known to be empty;
+  * pop-on: [RCL] [ENM] (PAC [TOx] text){1..4 rows} [EDM] EOC, optional stand-alone EDM later; ENM is omitted when
+    the non-displayed memory is empty or (opts["popon_swap"], ~45% of the streams) when the new rows are free in it:
+    the caption displayed two flips ago then returns with the new rows at the next EOC (memory swap);
   * roll-up: RUx then per row [RUx] CR [PAC] [TOx] text (first row optionally without CR); base row 15 unless
     opts["rollup_rows"];
   * paint-on: RDC (PAC [TOx] text){1..3 rows}, captions accumulate on free rows or follow an EDM; rewriting an
@@ -237,7 +238,7 @@ def _row_items(rng, width, token, o):
 DEFAULTS = {
   "p_pad": 0.08, "p_ch2": 0.06, "p_special": 0.04, "p_ext": 0.04, "p_subst": 0.03, "p_typo": 0.02, "p_mid": 0.12,
   "p_mid_lead": 0.06, "p_dblspace": 0.03, "p_to": 0.3, "p_color_pac": 0.35, "rollup_rows": False,
-  "paint_rewrite": False, "max_captions": 40,
+  "paint_rewrite": False, "popon_swap": False, "max_captions": 40,
 }
 
 
@@ -247,8 +248,9 @@ class _Gen:
     self.em = _Emitter(rng, opts)
     self.captions = []
     self.n = 0
-    self.disp_nonempty = False
-    self.nd_nonempty = False
+    self.disp_rows = set()      # rows holding pop-on text in the displayed / non-displayed memory
+    self.nd_rows = set()
+    self.nd_unknown = False     # after a roll-up segment: ENM is sent before the next pop-on caption
     self.pen_default = True
 
   def token(self):
@@ -317,45 +319,57 @@ class _Gen:
 
   # ---- pop-on ----------------------------------------------------------------------------------------------------
   def popon_segment(self, ncaps):
+    """opts["popon_swap"]: ENM and EDM are mostly omitted between consecutive captions, which then address rows that
+    are free in the non-displayed memory: the caption displayed two flips ago is still there, receives the new rows
+    and returns on screen at the next EOC (CEA-608 memory swap)."""
     r, em = self.r, self.em
+    swap = self.o["popon_swap"]
     for k in range(ncaps):
       cap = {"mode": "pop", "rows": {}, "cols": {}}
       em.newline(self.gap("long") if k else self.gap("short"))
       if k == 0 or r.random() < 0.7:
         em.ok(CTL["RCL"])
         em.ctl(CTL["RCL"])
-      if self.nd_nonempty or r.random() < 0.5:
+      nrows = r.choice([1, 1, 2, 2, 2, 3, 4])
+      if swap:
+        enm = self.nd_unknown or len(self.nd_rows) + nrows > 4 or r.random() < 0.12
+      else:
+        enm = self.nd_unknown or bool(self.nd_rows) or r.random() < 0.5
+      if enm:
         em.ok(CTL["ENM"])
         em.ctl(CTL["ENM"])
-        self.nd_nonempty = False
-      nrows = r.choice([1, 1, 2, 2, 2, 3, 4])
+        self.nd_rows = set()
+        self.nd_unknown = False
+      free = [x for x in range(1, 16) if x not in self.nd_rows]
+      rows = None
       if r.random() < 0.6:
-        bottom = r.choice([15, 15, 14, 13, 4, 3, 2, 10])
-        bottom = max(bottom, nrows)
-        rows = list(range(bottom - nrows + 1, bottom + 1))
-      else:
-        rows = sorted(r.sample(range(1, 16), nrows))
+        bottom = max(r.choice([15, 15, 14, 13, 4, 3, 2, 10]), nrows)
+        cand = list(range(bottom - nrows + 1, bottom + 1))
+        if not self.nd_rows.intersection(cand):
+          rows = cand
+      if rows is None:
+        rows = sorted(r.sample(free, nrows))
       if r.random() < 0.15:
         r.shuffle(rows)    # rows transmitted out of order
       for j, row in enumerate(rows):
         if j and r.random() < 0.15:
           em.newline(self.gap("short"))
         self.row(row, cap)
-      self.nd_nonempty = True
+      self.nd_rows.update(rows)
       if r.random() < 0.15:
         em.newline(self.gap("short"))
-      if r.random() < 0.45:
+      if r.random() < (0.08 if swap else 0.45):
         em.ok(CTL["EDM"])
         em.ctl(CTL["EDM"])
-        self.disp_nonempty = False
+        self.disp_rows = set()
       em.ok(CTL["EOC"])
       em.ctl(CTL["EOC"])
-      self.disp_nonempty, self.nd_nonempty = True, self.disp_nonempty
+      self.disp_rows, self.nd_rows = self.nd_rows, self.disp_rows
       self.captions.append(cap)
-      if r.random() < 0.45:
+      if r.random() < (0.08 if swap else 0.45):
         em.newline(self.gap("long"))
         em.ctl(CTL["EDM"])
-        self.disp_nonempty = False
+        self.disp_rows = set()
 
   # ---- roll-up ---------------------------------------------------------------------------------------------------
   def rollup_segment(self, nrows):
@@ -383,8 +397,9 @@ class _Gen:
       # the PAC may be omitted only right after a CR (pen and column are then the defaults) on base row 15
       self.row(base, cap, pac_optional=(with_cr and base == 15))
       self.captions.append(cap)
-    self.disp_nonempty = True
-    self.nd_nonempty = False   # RUx after another mode erased both memories; roll-up never writes it
+    # RUx after another mode erases both memories (47 CFR 15.119(f)(1)); not relied upon: the next pop-on caption sends ENM
+    self.nd_rows = set()
+    self.nd_unknown = True
 
   # ---- paint-on --------------------------------------------------------------------------------------------------
   def painton_segment(self, ncaps):
@@ -419,13 +434,12 @@ class _Gen:
         em.newline(self.gap("long"))
         self.row(row, cap, force_indent0=True, der=True)
       self.captions.append(cap)
-    self.disp_nonempty = True
 
   def clear_between_segments(self):
     em = self.em
     em.newline(self.gap("long"))
     em.ctl(CTL["EDM"])
-    self.disp_nonempty = False
+    self.disp_rows = set()
 
 
 def gen_stream(rng, tier="quick", **overrides):
@@ -434,6 +448,7 @@ def gen_stream(rng, tier="quick", **overrides):
   o["doubled"] = rng.random() < 0.45
   o["parity"] = rng.choice(["odd", "odd", "clear", "set"])
   o["text_align"] = rng.choice(["auto", "left", "center", "right"])
+  o["popon_swap"] = rng.random() < 0.45
   if rng.random() < 0.4:
     o["p_ch2"] = 0.0
   if rng.random() < 0.3:
